@@ -30,18 +30,25 @@ var (
 	c06Orig   = []string{"absent", "earlier", "later", "garbled"}
 	c06Types  = []string{"D", "0", "1", "2", "3", "4g", "4r", "5", "A", "ZZ"}
 	c06States = []string{"normal", "recovering", "pending", "pending+recovering", "logout"}
+	// message-validation defects that need no dictionary (validator settings ValidateFieldsHaveValues /
+	// ValidateFieldsOutOfOrder, both default Y)
+	c06Val = []string{"none", "empty-body-field", "empty-header-field", "header-field-after-body"}
 )
+
+func c06HaveValues(cfg sessmc.Config) bool { return cfg.Extra["ValidateFieldsHaveValues"] != "N" }
+func c06InOrder(cfg sessmc.Config) bool    { return cfg.Extra["ValidateFieldsOutOfOrder"] != "N" }
 
 type c06Case struct {
 	Cfg                                         sessmc.Config
 	State                                       int
 	BS, Sender, Target, Time, Seq, PD, Orig, Ty int
 	Routing                                     bool
+	Val                                         int
 }
 
 func (c c06Case) String() string {
 	return fmt.Sprintf("%s state=%s type=%s 8=%s 49=%s 56=%s 52=%s 34=%s 43=%s 122=%s", c.Cfg, c06States[c.State], c06Types[c.Ty],
-		c06BS[c.BS], c06Comp[c.Sender], c06Comp[c.Target], c06Time[c.Time], c06Seq[c.Seq], c06PD[c.PD], c06Orig[c.Orig])
+		c06BS[c.BS], c06Comp[c.Sender], c06Comp[c.Target], c06Time[c.Time], c06Seq[c.Seq], c06PD[c.PD], c06Orig[c.Orig]) + map[bool]string{true: " validation-defect=" + c06Val[c.Val]}[c.Val != 0]
 }
 
 func c06Prefix(state int) []*sessmc.Event {
@@ -154,7 +161,19 @@ func c06Build(w *sessmc.World, c c06Case) (*sessmc.In, time.Time) {
 		in.Set = append(in.Set, fixscan.Field{122, "yesterday"})
 	}
 	if c.Routing {
-		in.Set = append(in.Set, fixscan.Field{50, "PSUB"}, fixscan.Field{142, "PLOC"}, fixscan.Field{115, "OBO"})
+		in.Set = append(in.Set, fixscan.Field{50, "PSUB"}, fixscan.Field{142, "PLOC"})
+		if c06Val[c.Val] != "empty-header-field" {
+			in.Set = append(in.Set, fixscan.Field{115, "OBO"})
+		}
+	}
+	switch c06Val[c.Val] {
+	case "empty-body-field":
+		in.Body = append(in.Body, fixscan.Field{58, ""})
+	case "empty-header-field":
+		in.Set = append(in.Set, fixscan.Field{115, ""})
+	case "header-field-after-body":
+		// a body field first (types without a body would otherwise keep the tag inside the header), then the header tag
+		in.Body = append(in.Body, fixscan.Field{58, "text"}, fixscan.Field{129, "LATE"})
 	}
 	return in, now
 }
@@ -250,6 +269,30 @@ func optional(c c06Case, allowed []c06Allowed) int {
 	switch c06Time[c.Time] {
 	case "-1h", "+1h", "garbled", "missing":
 		return 1
+	case "empty":
+		if !c06HaveValues(c.Cfg) {
+			return 1
+		}
+	}
+	return 0
+}
+
+// c06ValDefect: the tag message validation must name for the validation defect of the case under the
+// session's validator settings (0: the defect is absent or the setting switches the check off).
+func c06ValDefect(c c06Case) int {
+	switch c06Val[c.Val] {
+	case "empty-body-field":
+		if c06HaveValues(c.Cfg) {
+			return 58
+		}
+	case "empty-header-field":
+		if c06HaveValues(c.Cfg) {
+			return 115
+		}
+	case "header-field-after-body":
+		if c06InOrder(c.Cfg) {
+			return 129
+		}
 	}
 	return 0
 }
@@ -298,7 +341,16 @@ func c06ExpectedInner(c c06Case) (allowed []c06Allowed, gateClosed bool, mandato
 			allowed = append(allowed, c06Allowed{class: "rej", tag: 52})
 		}
 	case "empty":
-		allowed = append(allowed, c06Allowed{class: "rej", tag: 52})
+		// an empty SendingTime fails the time check when there is one, and message validation otherwise
+		if latency || c06HaveValues(c.Cfg) {
+			allowed = append(allowed, c06Allowed{class: "rej", tag: 52})
+			gateClosed = true
+		} else if recovering && !c.Cfg.NoCheckLatency {
+			allowed = append(allowed, c06Allowed{class: "rej", tag: 52})
+		}
+	}
+	if t := c06ValDefect(c); t != 0 {
+		allowed = append(allowed, c06Allowed{class: "rej", tag: t})
 		gateClosed = true
 	}
 	if seqChecked(ty) {
@@ -522,6 +574,23 @@ func c06Configs(quick bool) []sessmc.Config {
 			}
 		}
 	}
+	// validator settings: each field-content check switched off on its own and both together, without a
+	// dictionary and with one whose field checks are off (RejectInvalidMessage=N)
+	for _, x := range []map[string]string{
+		{"ValidateFieldsOutOfOrder": "N"}, {"ValidateFieldsHaveValues": "N"}, {"ValidateFieldsOutOfOrder": "N", "ValidateFieldsHaveValues": "N"},
+	} {
+		out = append(out, sessmc.Config{BeginString: "FIX.4.2", Extra: x})
+		if !quick {
+			out = append(out, sessmc.Config{BeginString: "FIX.4.2", NoCheckLatency: true, Extra: x})
+		}
+		y := map[string]string{"RejectInvalidMessage": "N"}
+		for k, v := range x {
+			y[k] = v
+		}
+		if !quick || len(x) == 1 {
+			out = append(out, sessmc.Config{BeginString: "FIX.4.4", DataDictionary: specDir + "FIX44.xml", Extra: y})
+		}
+	}
 	return out
 }
 
@@ -532,9 +601,10 @@ func runC06(c *core.Ctx) {
 	} else {
 		c.SetDeadline(45 * time.Minute)
 	}
-	c.SetRule("cartesian product of header-field variants (BeginString 2 x SenderCompID 4 x TargetCompID 4 x SendingTime 6 x MsgSeqNum 6 x PossDupFlag 4 x OrigSendingTime 4 x MsgType 10) delivered to a real session in each of 5 states and each configuration; quick: at most two non-default axes per message, thorough: full product for two configurations and pairs elsewhere; distinct = distinct (config,state,message) triples")
+	c.SetRule("cartesian product of header-field variants (BeginString 2 x SenderCompID 4 x TargetCompID 4 x SendingTime 6 x MsgSeqNum 6 x PossDupFlag 4 x OrigSendingTime 4 x MsgType 10 x validation defect 4 {none, empty body field, empty routing header field, header field after the body}) delivered to a real session in each of 5 states and each configuration; quick: at most two non-default axes per message, thorough: full product for two configurations and pairs elsewhere; distinct = distinct (config,state,message) triples")
 	c.Assume("oracle is set-valued: with several defects present any reaction mandated for one of them is accepted", "in-session Logon messages are judged only by the only-if part",
-		"Reject naming the field: RefTagID (FIX.4.2+) or the '(tag)' suffix of Text (FIX.4.0/4.1)", "SendingTime fresh to within a second; MaxLatency default 120 s; stale = 1 h")
+		"Reject naming the field: RefTagID (FIX.4.2+) or the '(tag)' suffix of Text (FIX.4.0/4.1)", "SendingTime fresh to within a second; MaxLatency default 120 s; stale = 1 h",
+		"validator settings: ValidateFieldsOutOfOrder / ValidateFieldsHaveValues each N alone and together, with and without a dictionary (RejectInvalidMessage=N); a validation defect closes the gate exactly when its setting is on")
 	cfgs := c06Configs(quick)
 	var cases []c06Case
 	for ci, cfg := range cfgs {
@@ -548,23 +618,28 @@ func runC06(c *core.Ctx) {
 								for sq := range c06Seq {
 									for pd := range c06PD {
 										for or := range c06Orig {
-											nd := 0
-											for _, v := range []int{bs, s, t, tm, sq, pd, or} {
-												if v != 0 {
-													nd++
+											for val := range c06Val {
+												nd := 0
+												for _, v := range []int{bs, s, t, tm, sq, pd, or, val} {
+													if v != 0 {
+														nd++
+													}
 												}
-											}
-											if !full && nd > 2 {
-												// keep the PossDup/Orig combinations of a too-low number (a triple by construction)
-												if !(sq == 1 && pd != 0 && nd == 3 && or != 0) {
+												if !full && nd > 2 {
+													// keep the PossDup/Orig combinations of a too-low number (a triple by construction)
+													if !(sq == 1 && pd != 0 && nd == 3 && or != 0) {
+														continue
+													}
+												}
+												if !seqChecked(c06Types[ty]) && sq != 0 {
 													continue
 												}
+												if full && val != 0 && nd > 3 {
+													continue
+												}
+												cases = append(cases, c06Case{Cfg: cfg, State: st, BS: bs, Sender: s, Target: t, Time: tm, Seq: sq, PD: pd, Orig: or, Ty: ty, Val: val,
+													Routing: (bs+s+t+tm+sq+pd+or+ty+st)%3 == 0})
 											}
-											if !seqChecked(c06Types[ty]) && sq != 0 {
-												continue
-											}
-											cases = append(cases, c06Case{Cfg: cfg, State: st, BS: bs, Sender: s, Target: t, Time: tm, Seq: sq, PD: pd, Orig: or, Ty: ty,
-												Routing: (bs+s+t+tm+sq+pd+or+ty+st)%3 == 0})
 										}
 									}
 								}
